@@ -57,7 +57,7 @@ def lean_obligations(tables, switch):
     return src, 3
 
 
-def run(ctx):
+def _run_property(ctx):
     ctx.cov['rule'] = ('notebook triples (independent edit scripts and targeted conflict scenarios: concurrent similar/dissimilar inserts, delete-vs-edit, '
                        'same-line edits, outputs, metadata, attachments, minor-version changes) x strategy combinations (all 4x5x7x2 + mergetool, sampled in '
                        'the quick tier so that every option value occurs) x text merge helper {git merge-file, diff3, built-in}; non-trivial = the merge '
@@ -102,7 +102,24 @@ def run(ctx):
                       {'kind': 'obligation', 'theorem': 'gen/C03_Tables.lean', 'output': note}, found=False, classify=False)
 
 
+MERGE_MODEL_THEOREMS = []
+
+
+def run(ctx):
+    from checks import mergemodel
+    _run_property(ctx)
+    mergemodel.tie(ctx, (60, 20, 800, 300), MERGE_MODEL_THEOREMS)
+
+
 def replay(path):
+    _d = json.load(open(path))['data']
+    if _d.get('kind') == 'correspondence' and _d.get('stream') == 'merge-model':
+        from checks import mergemodel
+        return mergemodel.replay_case(_d)
+    return _replay_property(path)
+
+
+def _replay_property(path):
     from vlib import dec
     data = json.load(open(path))['data']
     if 'b' not in data:
